@@ -1945,3 +1945,41 @@ def is_packet_decode(e):
             e.fn[1][0] == 'call' and len(e.args) == 1:
         return True
     return False
+
+
+def compression_arms(report, R, db, S, M):
+    """Every reactor arm that handles a set-compression packet stores the
+    announced threshold *and* switches compression on, on every returning
+    path (reader and writer consult both options)."""
+    from .pathsum import struct, show
+    CONN = 'minecraft.networking.connection'
+    n = 0
+    base = db.get_class(CONN, 'PacketReactor')
+    for rc in sorted(db.subclasses(base), key=lambda c: c.fq):
+        fi = db.own_method(rc, 'react')
+        if fi is None:
+            continue
+        me, pk = ('sym', fi.params[0]), ('sym', fi.params[1])
+        opts = ('attr', ('attr', me, 'connection'), 'options')
+        for p in S.run(fi):
+            if arm_of(p, pk) != 'set compression' or not p.returns and \
+                    p.outcome[0] != 'fall':
+                continue
+            n += 1
+            stores = {e.attr: e.value for e in p.flat(('store',))
+                      if struct(e.base) == opts}
+            thr = stores.get('compression_threshold')
+            if thr is not None and struct(thr) == ('attr', pk, 'threshold') \
+                    and stores.get('compression_enabled') == ('const', True):
+                report.ok(R, '%s: threshold from the packet, compression '
+                          'on' % fi.qualname)
+            else:
+                report.violation(
+                    R, 'comp:stores:%s' % rc.name, fi.path, fi.node,
+                    fi.qualname, 'the set-compression arm of %s stores %s; '
+                    'it must take the threshold from the packet and switch '
+                    'compression on, otherwise reader and writer stay in '
+                    'the old framing while the peer has switched' % (
+                        rc.name, {k: show(v) for k, v in sorted(
+                            stores.items())}))
+    return n
